@@ -240,6 +240,16 @@ func runC17(r *Result, thorough bool) {
 			close(release)
 			<-done
 			r.Inc("suspensions_with_a_request_in_flight", 1)
+			// the suspended node (transactions still pooled) is sent an eager push with no events at all
+			if ft.n.GetState() == _state.Suspended {
+				ft.n.VerifAddTransaction([]byte("pooled while suspended"))
+				b0 := ft.dagDigest()
+				cls0, _, _ := rpcCall(ft.n, &bnet.EagerSyncRequest{FromID: pusher.n.GetID(), Events: nil})
+				if a0 := ft.dagDigest(); cls0 == "ok" || a0 != b0 {
+					r.Violate("impl-violation", fmt.Sprintf("a Suspended node handled an eager push without events (%s): %s -> %s", cls0, b0, a0), "suspended-empty-push", nil)
+				}
+				r.Inc("empty_pushes_to_a_suspended_node", 1)
+			}
 			if st != _state.Suspended {
 				r.Violate("impl-violation", fmt.Sprintf("over its suspend limit with a request still in flight, the node is %s, not Suspended", st.String()), "suspend-waits-for-routines", nil)
 			}
